@@ -876,6 +876,25 @@ func (e *SpecEnv) callExpr(n *ast.CallExpr) Value {
 	case "atype":
 		r := e.refTerm(e.eval(arg(0)), n)
 		return IntV{T: atypeOf(ex.st, r), W: 64, Signed: true}
+	case "last", "lastarg": // last("f"): result of the most recent call of the abstract function f on this path; lastarg("f", i): its i-th argument
+		name := strings.Trim(exprString(arg(0)), "\"")
+		key := "last." + name
+		if fname == "lastarg" {
+			key = fmt.Sprintf("lastarg%s.%s", exprString(arg(1)), name)
+		}
+		if v, ok := e.cur.ghost[key]; ok {
+			return v
+		}
+		if v, ok := e.cur.ghost[strings.Replace(key, ".", ".p.", 1)]; ok { // function-typed parameters / captures are named p.<name>
+			return v
+		}
+		var have []string
+		for k := range e.cur.ghost {
+			if strings.HasPrefix(k, "last") {
+				have = append(have, k)
+			}
+		}
+		e.fail(n, "no call of %s on this path (have %v)", name, have)
 	case "defined": // defined(x): the local x has been assigned on this path (constant)
 		if id, ok := arg(0).(*ast.Ident); ok {
 			_, found := e.lookup(id.Name)
